@@ -22,6 +22,15 @@ class Guard:
         self.lock_expr = lock_expr  # Expr of the lock object (e.g. self.counters)
         self.mode = mode            # 'write' | 'read' | 'lock'
         self.drops = [bi for bi, t in body.terms() if t['k'] == 'drop' and t['p'] == [local]]
+        # an explicit `drop(guard)` (or any call that takes the guard by value) releases it there
+        moved = {local}
+        for bi, si, st in body.stmts():
+            r = st['r']
+            if r['k'] == 'use' and r['o'].get('m') and r['o'].get('p') == [local] and len(st['d']) == 1 and body.local_name(st['d'][0]) is None:
+                moved.add(st['d'][0])
+        for bi, t in body.terms():
+            if t['k'] == 'call' and any(a.get('m') and len(a.get('p', [])) == 1 and a['p'][0] in moved for a in t.get('args', [])):
+                self.drops.append(t['t'] if t.get('t') is not None else bi)
         ds = body.defs().get(local, [])
         # the block in which the guard value comes into existence (after the await for async locks)
         self.def_bb = ds[0][1] if ds else acq.bb
@@ -468,6 +477,20 @@ def rpo(body):
     return {n: i for i, n in enumerate(order)}
 
 
+def source_loops(body):
+    """natural loops written in the source (`loop`, `while`, `for`): the poll loops that `.await`
+    desugars to are left out"""
+    out = []
+    n = len(body.blocks)
+    for h, nodes in natural_loops(body):
+        hb = h if h < n else body.cfg()[2][h][0]
+        t = body.blocks[hb]['t']
+        if t.get('dk') == 'Await':
+            continue
+        out.append((h, nodes))
+    return out
+
+
 def natural_loops(body):
     """list of (header, body_nodes, back_edge_sources) using dominators on the edge-split CFG"""
     succ, pred, _ = body.cfg()
@@ -838,7 +861,7 @@ def main_loop_with(body, call_rx, depth=3):
                 if cb is not None and any(rx.search(c.callee) for c in cb.calls()):
                     hot.add(bi)
     best = None
-    for h, nodes in natural_loops(body):
+    for h, nodes in source_loops(body):
         if hot & nodes:
             if best is None or len(nodes) > len(best[1]):
                 best = (h, nodes)
